@@ -256,6 +256,11 @@ class UserAttributeSubPackets(SubPackets):
     _spmodule = userattribute
 
     def __bytearray__(self):
+        if self._unhashed_raw is not None:
+            # attribute subpackets are signed data (RFC 4880 5.2.4) and are counted by the packet length:
+            # use the received octets, not a re-serialisation of them, until a subpacket is added
+            return bytearray(self._unhashed_raw)
+
         _bytes = bytearray()
         for uhsp in self._unhashed_sp.values():
             _bytes += uhsp.__bytearray__()
